@@ -58,6 +58,7 @@ class Model:
         self.reqs = []    # active requests
         self.n_add = 0
         self.n_remove = 0
+        self.coincident = False
 
     def add(self, S, kind, arg, v):
         b = self.prep.b
@@ -76,6 +77,11 @@ class Model:
         for vw in views:
             a = reloc(b, vw['addr'])
             addrs.append(a)
+            if a in self.B and self.B[a]['num'] != vw['num']:
+                # two requests resolved to one address under two breakpoint numbers (before the program runs an address breakpoint
+                # and a line breakpoint are kept under different address forms): which number a stop there reports, and what removing
+                # one of them leaves behind, is not stated by the property and not modelled here
+                self.coincident = True
             self.B[a] = {'num': vw['num'], 'req': len(self.reqs), 'kind': kind,
                          'line': (vw.get('place') or {}).get('line')}
         req = {'kind': kind, 'arg': arg, 'addrs': addrs, 'id': len(self.reqs), 'active': True}
@@ -149,6 +155,9 @@ def run_case(spec):
         for kind, arg in pick_requests(prep, rng, rng.randint(1, 5)):
             if M.add(S, kind, arg, v):
                 kinds.add(kind)
+        if M.coincident:
+            v.inconc('two-requests-at-one-address-under-two-numbers-not-modelled')
+            return v.export()
         # occasionally remove one again before the program starts
         if rng.random() < 0.3 and M.reqs:
             req = rng.choice([r for r in M.reqs if r['active']])
@@ -246,6 +255,9 @@ def run_case(spec):
                     if cand:
                         M.add(S, 'addr', rng.choice(cand), v)
                         pattern.append('Ahere')
+            if M.coincident:
+                v.inconc('two-requests-at-one-address-under-two-numbers-not-modelled')
+                break
             # inspection between stops must not change where the program stops next: select frames, look at the stack,
             # read variables, disassemble (the user is entitled to any of these before continuing)
             if rng.random() < 0.35:
